@@ -1,317 +1,18 @@
 import J5V.Codec.EncTreeProofs
 /-!
 # Encoding a representable message succeeds (C01, first half of the statement)
+
+Progress is part of the fuel induction `RTP` (`J5V.Codec.RoundtripInd`): this file only restates it.
 -/
 namespace J5V.Codec
 open J5V.Go J5V.Json
 
-/-! ## depth bounds -/
-
-theorem depthFields_mem (fs : List (Nat × PVal)) (k : Nat) (v : PVal) (h : (k, v) ∈ fs) :
-    v.depth ≤ depthFields fs := by
-  induction fs with
-  | nil => cases h
-  | cons kv t ih =>
-    obtain ⟨k', v'⟩ := kv
-    simp only [depthFields]
-    rcases List.mem_cons.mp h with heq | h'
-    · cases heq; exact Nat.le_max_left _ _
-    · exact Nat.le_trans (ih h') (Nat.le_max_right _ _)
-
-theorem depthList_mem (xs : List PVal) (v : PVal) (h : v ∈ xs) : v.depth ≤ depthList xs := by
-  induction xs with
-  | nil => cases h
-  | cons a t ih =>
-    simp only [depthList]
-    rcases List.mem_cons.mp h with rfl | h'
-    · exact Nat.le_max_left _ _
-    · exact Nat.le_trans (ih h') (Nat.le_max_right _ _)
-
-theorem depthMap_mem (kvs : List (Bytes × PVal)) (k : Bytes) (v : PVal) (h : (k, v) ∈ kvs) :
-    v.depth ≤ depthMap kvs := by
-  induction kvs with
-  | nil => cases h
-  | cons kv t ih =>
-    obtain ⟨k', v'⟩ := kv
-    simp only [depthMap]
-    rcases List.mem_cons.mp h with heq | h'
-    · cases heq; exact Nat.le_max_left _ _
-    · exact Nat.le_trans (ih h') (Nat.le_max_right _ _)
-
-/-! ## folds of successes succeed -/
-
-theorem foldr_consElem_ok {α : Type} (g : α → Outcome PTree) (xs : List α)
-    (h : ∀ x ∈ xs, ∃ t, g x = .ok t) :
-    ∃ es, xs.foldr (fun x acc => consElem (g x) acc) (.ok (.nil .closed)) = .ok es := by
-  induction xs with
-  | nil => exact ⟨_, rfl⟩
-  | cons x xs ih =>
-    obtain ⟨t, ht⟩ := h x List.mem_cons_self
-    obtain ⟨es, hes⟩ := ih (fun y hy => h y (List.mem_cons_of_mem _ hy))
-    exact ⟨.cons t es, by rw [List.foldr_cons, hes, ht]; rfl⟩
-
-theorem foldr_consMember_ok {α : Type} (g : α → Outcome (Option (Bytes × Bytes × PTree)))
-    (xs : List α) (h : ∀ x ∈ xs, ∃ r, g x = .ok r) :
-    ∃ ms, xs.foldr (fun x acc => consMember (g x) acc) (.ok (.nil .closed)) = .ok ms := by
-  induction xs with
-  | nil => exact ⟨_, rfl⟩
-  | cons x xs ih =>
-    obtain ⟨r, hr⟩ := h x List.mem_cons_self
-    obtain ⟨ms, hms⟩ := ih (fun y hy => h y (List.mem_cons_of_mem _ hy))
-    cases r with
-    | none => exact ⟨ms, by rw [List.foldr_cons, hms, hr]; rfl⟩
-    | some e =>
-      obtain ⟨k, kr, t⟩ := e
-      exact ⟨.cons k kr t ms, by rw [List.foldr_cons, hms, hr]; rfl⟩
-
-theorem member_ok (name : Bytes) (t : PTree) (h : isValidUtf8 name = true) :
-    ∃ e, member name (.ok t) = .ok (some e) := by
-  obtain ⟨lit, hl⟩ := (appendString_total name).2.1 h
-  exact ⟨(name, lit, t), by simp [member, hl]⟩
-
-theorem mapOk_mem (env : Env) (O : Oracle) (item : Field) :
-    ∀ (kvs : List (Bytes × PVal)) (seen : List Bytes), mapOk env O item seen kvs = true →
-      ∀ kv ∈ kvs, isValidUtf8 kv.1 = true ∧ valOk env O item kv.2 = true := by
-  intro kvs
-  induction kvs with
-  | nil => intro _ _ kv h; cases h
-  | cons a t ih =>
-    intro seen hok kv hkv
-    obtain ⟨k, v⟩ := a
-    obtain ⟨_, hu, hv, hrest⟩ := mapOk_cons _ _ _ _ _ _ _ hok
-    rcases List.mem_cons.mp hkv with rfl | h'
-    · exact ⟨hu, hv⟩
-    · exact ih _ hrest kv h'
-
-/-- encoding succeeds at every fuel that covers three levels per nesting level -/
-structure PR (env : Env) (O : Oracle) (f : Nat) : Prop where
-  val : ∀ fld v, fieldSimple fld = true → valOk env O fld v = true → 3 * v.depth + 1 ≤ f →
-    ∃ t, encValue env O f fld v = .ok t
-  obj : ∀ props fs, rootSimple (.object props) = true →
-    (∀ p ∈ props, isValidUtf8 p.jsonName = true) → fieldsOk env O props fs = true →
-    3 * depthFields fs + 3 ≤ f → ∃ t, encObjectBody env O f props fs = .ok t
-  one : ∀ ops fs, rootSimple (.oneof ops) = true →
-    (∀ p ∈ ops, isValidUtf8 p.jsonName = true) → fieldsOk env O ops fs = true → fs.length ≤ 1 →
-    3 * depthFields fs + 3 ≤ f → ∃ t, encOneofBody env O f ops fs = .ok t
-
-end J5V.Codec
-
-namespace J5V.Codec
-open J5V.Go J5V.Json
-
-theorem itemSimple_field (item : Field) (h : itemSimple item = true) : fieldSimple item = true := by
-  cases item <;> simp [itemSimple] at h <;> rfl
-
-theorem PR_val (env : Env) (O : Oracle) (hs : env.simple = true) (L : OracleLaws O) (f : Nat)
-    (ih : ∀ f' < f + 1, PR env O f') :
-    ∀ fld v, fieldSimple fld = true → valOk env O fld v = true → 3 * v.depth + 1 ≤ f + 1 →
-      ∃ t, encValue env O (f + 1) fld v = .ok t := by
-  intro fld v hfs hok hd
-  cases fld with
-  | scalar k =>
-    obtain ⟨t, _, ht, _⟩ := scalarNode_roundtrip O L k v (valOk_scalar _ _ k v hok)
-    exact ⟨t, by simp only [encValue]; exact ht⟩
-  | «enum» ref =>
-    obtain ⟨n, pfx, opts, rfl, hfind, hsome⟩ := valOk_enum _ _ ref v hok
-    cases hn : optionByNumber opts n with
-    | none => simp [hn] at hsome
-    | some name =>
-      have hroot := find_rootSimple env hs ref _ hfind
-      simp only [rootSimple, Bool.and_eq_true, decide_eq_true_eq] at hroot
-      obtain ⟨o, hom, hon⟩ := optionByNumber_mem opts n name hn
-      have hutf : isValidUtf8 name = true := by
-        have := List.all_eq_true.mp hroot.2 o hom
-        rw [← hon]; exact this
-      obtain ⟨lit, hl⟩ := strNode_ok name hutf
-      exact ⟨_, by simp only [encValue, hfind, hn]; exact hl⟩
-  | object ref =>
-    obtain ⟨fs, props, rfl, hfind, _, hfok⟩ := valOk_object _ _ ref v hok
-    simp only [PVal.depth] at hd
-    obtain ⟨t, ht⟩ := (ih f (Nat.lt_succ_self f)).obj props fs (find_rootSimple env hs ref _ hfind)
-      (find_names_utf8 env hs ref props (Or.inl hfind)) hfok (by omega)
-    exact ⟨t, by simp only [encValue, hfind]; exact ht⟩
-  | oneof ref =>
-    obtain ⟨fs, ops, rfl, hfind, _, hfok, hlen⟩ := valOk_oneof _ _ ref v hok
-    simp only [PVal.depth] at hd
-    obtain ⟨t, ht⟩ := (ih f (Nat.lt_succ_self f)).one ops fs (find_rootSimple env hs ref _ hfind)
-      (find_names_utf8 env hs ref ops (Or.inr hfind)) hfok hlen (by omega)
-    exact ⟨t, by simp only [encValue, hfind]; exact ht⟩
-  | any pb => simp [fieldSimple] at hfs
-  | array item =>
-    obtain ⟨xs, rfl, hlok⟩ := valOk_array _ _ item v hok
-    have hi : itemSimple item = true := by simpa [fieldSimple] using hfs
-    simp only [PVal.depth] at hd
-    obtain ⟨es, hes⟩ := foldr_consElem_ok (encValue env O f item) xs (by
-      intro x hx
-      have hdx := depthList_mem xs x hx
-      exact (ih f (Nat.lt_succ_self f)).val item x (itemSimple_field item hi)
-        (listOk_mem _ _ item xs hlok x hx) (by omega))
-    refine ⟨.arr es, ?_⟩
-    simp only [encValue]
-    cases item <;> simp only [itemSimple, Bool.false_eq_true] at hi <;> simp only [hes]
-  | map item =>
-    obtain ⟨kvs, rfl, hmok⟩ := valOk_map _ _ item v hok
-    have hi : itemSimple item = true := by simpa [fieldSimple] using hfs
-    simp only [PVal.depth] at hd
-    obtain ⟨ms, hms⟩ := foldr_consMember_ok
-      (fun kv : Bytes × PVal => member kv.1 (encValue env O f item kv.2)) kvs (by
-      intro kv hkv
-      have hdx := depthMap_mem kvs kv.1 kv.2 hkv
-      obtain ⟨hu, hv⟩ := mapOk_mem _ _ item kvs [] hmok kv hkv
-      obtain ⟨t, ht⟩ := (ih f (Nat.lt_succ_self f)).val item kv.2 (itemSimple_field item hi) hv
-        (by omega)
-      obtain ⟨e, he⟩ := member_ok kv.1 t hu
-      exact ⟨some e, by rw [ht]; exact he⟩)
-    refine ⟨.obj ms, ?_⟩
-    simp only [encValue]
-    cases item <;> simp only [itemSimple, Bool.false_eq_true] at hi <;> simp only [hms]
-
-theorem PR_obj (env : Env) (O : Oracle) (hs : env.simple = true) (L : OracleLaws O) (f : Nat)
-    (ih : ∀ f' < f + 1, PR env O f') :
-    ∀ props fs, rootSimple (.object props) = true →
-      (∀ p ∈ props, isValidUtf8 p.jsonName = true) → fieldsOk env O props fs = true →
-      3 * depthFields fs + 3 ≤ f + 1 → ∃ t, encObjectBody env O (f + 1) props fs = .ok t := by
-  intro props fs hroot hutf hfok hd
-  simp only [rootSimple, Bool.and_eq_true, decide_eq_true_eq] at hroot
-  obtain ⟨⟨hall, hnames⟩, hpaths⟩ := hroot
-  have hsimple : ∀ p ∈ props, propSimple p = true := by
-    intro p hp
-    have := List.all_eq_true.mp hall p hp
-    simp only [Bool.and_eq_true] at this; exact this.1
-  obtain ⟨f', rfl⟩ : ∃ f', f = f' + 1 := ⟨f - 1, by omega⟩
-  obtain ⟨ms, hms⟩ := foldr_consMember_ok (objMember env O (f' + 1) props fs) props (by
-    intro p hp
-    obtain ⟨k, hpk⟩ := propSimple_path p (hsimple p hp)
-    unfold objMember
-    rw [findProp_self props hnames p hp]
-    simp only []
-    rw [encField_single env O f' p k fs hpk]
-    cases hag : aget k fs with
-    | none => exact ⟨none, rfl⟩
-    | some v =>
-      simp only []
-      obtain ⟨p', hfp, hvok, _⟩ := fieldsOk_mem _ _ props fs hfok k v (aget_mem k v fs hag)
-      have hpp : p' = p := by
-        have := findPath_self props hpaths p hp
-        rw [hpk] at this
-        rw [this] at hfp; cases hfp; rfl
-      subst hpp
-      have hdv := depthFields_mem fs k v (aget_mem k v fs hag)
-      obtain ⟨t, ht⟩ := (ih f' (by omega)).val p'.field v (propSimple_field p' (hsimple p' hp)) hvok
-        (by omega)
-      rw [ht]
-      obtain ⟨e, he⟩ := member_ok p'.jsonName t (hutf p' hp)
-      exact ⟨some e, he⟩)
-  refine ⟨.obj ms, ?_⟩
-  simp only [encObjectBody]
-  show (match props.foldr (fun p acc => consMember (objMember env O (f' + 1) props fs p) acc)
-        (.ok (.nil .closed)) with
-      | .ok ms => Outcome.ok (PTree.obj ms)
-      | .err e => .err e
-      | .panic w => .panic w) = .ok (.obj ms)
-  rw [hms]
-
-theorem PR_one (env : Env) (O : Oracle) (hs : env.simple = true) (L : OracleLaws O) (f : Nat)
-    (ih : ∀ f' < f + 1, PR env O f') :
-    ∀ ops fs, rootSimple (.oneof ops) = true →
-      (∀ p ∈ ops, isValidUtf8 p.jsonName = true) → fieldsOk env O ops fs = true → fs.length ≤ 1 →
-      3 * depthFields fs + 3 ≤ f + 1 → ∃ t, encOneofBody env O (f + 1) ops fs = .ok t := by
-  intro ops fs hroot hutf hfok hlen hd
-  simp only [rootSimple, Bool.and_eq_true, decide_eq_true_eq, Bool.not_eq_true'] at hroot
-  obtain ⟨⟨⟨hall, hnames⟩, hpaths⟩, _⟩ := hroot
-  have hsimple : ∀ p ∈ ops, propSimple p = true := fun p hp => List.all_eq_true.mp hall p hp
-  have hpred : ∀ q ∈ ops, oneofSet env (f + 1) ops fs q =
-      (match q.path with | [k] => (aget k fs).isSome | _ => false) := by
-    intro q hq
-    unfold oneofSet
-    rw [findProp_self ops hnames q hq]
-    obtain ⟨k, hk⟩ := propSimple_path q (hsimple q hq)
-    simp only [hasProp_single env f q k fs hk, hk]
-  simp only [encOneofBody]
-  rw [List.filter_congr hpred]
-  cases fs with
-  | nil =>
-    have hnil : ops.filter (fun q => match q.path with | [k] => (aget k ([] : Fields)).isSome | _ => false) = [] := by
-      apply List.filter_eq_nil_iff.mpr
-      intro q _
-      split <;> simp [aget]
-    rw [hnil]
-    exact ⟨_, rfl⟩
-  | cons kv rest =>
-    obtain ⟨k, v⟩ := kv
-    have hrest : rest = [] := by
-      cases rest with
-      | nil => rfl
-      | cons a b => simp at hlen
-    subst hrest
-    obtain ⟨p, hfp, hvok, _⟩ := fieldsOk_mem _ _ ops _ hfok k v List.mem_cons_self
-    have hpm := List.mem_of_find?_eq_some hfp
-    have hpk : p.path = [k] := by simpa using List.find?_some hfp
-    have hfilt : ops.filter (fun q => match q.path with | [k'] => (aget k' [(k, v)]).isSome | _ => false) = [p] := by
-      rw [← filter_unique (·.path) ops hpaths p hpm]
-      apply List.filter_congr
-      intro q hq
-      obtain ⟨kq, hkq⟩ := propSimple_path q (hsimple q hq)
-      simp only [hkq, hpk, aget]
-      by_cases hk : kq = k
-      · simp [hk]
-      · simp [hk]
-    rw [hfilt]
-    simp only [findProp_self ops hnames p hpm]
-    obtain ⟨nlit, hnl⟩ := strNode_ok p.jsonName (hutf p hpm)
-    obtain ⟨tlit, htl⟩ := typeKey_lit
-    simp only [hnl, htl]
-    simp only [depthFields] at hd
-    obtain ⟨f', rfl⟩ : ∃ f', f = f' + 1 := ⟨f - 1, by omega⟩
-    rw [encField_single env O f' p k _ hpk]
-    simp only [aget, if_true]
-    obtain ⟨t', ht'⟩ := (ih f' (by omega)).val p.field v (propSimple_field p (hsimple p hpm)) hvok
-      (by have := Nat.le_max_left v.depth 0; omega)
-    simp only [ht']
-    obtain ⟨e, he⟩ := member_ok p.jsonName t' (hutf p hpm)
-    obtain ⟨ek, ekr, ev⟩ := e
-    simp only [he]
-    exact ⟨_, rfl⟩
-
-theorem PR_all (env : Env) (O : Oracle) (hs : env.simple = true) (L : OracleLaws O) :
-    ∀ f, PR env O f := by
-  intro f
-  induction f using Nat.strongRecOn with
-  | _ f ih =>
-    cases f with
-    | zero =>
-      refine ⟨?_, ?_, ?_⟩
-      · intro fld v _ _ h; omega
-      · intro props fs _ _ _ h; omega
-      · intro ops fs _ _ _ _ h; omega
-    | succ f => exact ⟨PR_val env O hs L f ih, PR_obj env O hs L f ih, PR_one env O hs L f ih⟩
-
-/-- **encoding a representable message of a simple environment succeeds** -/
-theorem encode_ok (env : Env) (O : Oracle) (hs : env.simple = true) (L : OracleLaws O)
+/-- **encoding a representable message of a flat environment succeeds** -/
+theorem encode_ok (c : Cfg) (hs : c.env.flat = true) (L : OracleLaws c.O)
     (root : String) (m : Fields)
-    (hok : valOk env O (.object root) (.msg m) = true ∨ valOk env O (.oneof root) (.msg m) = true) :
-    ∃ bs, encodeBytes env O root (.msg m) = .ok bs := by
-  have key : ∃ t, encodeTree env O root (.msg m) = .ok t := by
-    unfold encodeTree encFuel
-    simp only [PVal.depth]
-    rcases hok with hok | hok
-    · obtain ⟨fs, props, hv, hfind, _, hfok⟩ := valOk_object _ _ root _ hok
-      cases hv
-      obtain ⟨t, ht⟩ := (PR_all env O hs L (6 * (depthFields m + 1) + 9)).obj props m
-        (find_rootSimple env hs root _ hfind) (find_names_utf8 env hs root props (Or.inl hfind))
-        hfok (by omega)
-      exact ⟨t, by
-        show encRoot env O (6 * (depthFields m + 1) + 9 + 1) root (.msg m) = .ok t
-        simp only [encRoot, hfind]; exact ht⟩
-    · obtain ⟨fs, ops, hv, hfind, _, hfok, hlen⟩ := valOk_oneof _ _ root _ hok
-      cases hv
-      obtain ⟨t, ht⟩ := (PR_all env O hs L (6 * (depthFields m + 1) + 9)).one ops m
-        (find_rootSimple env hs root _ hfind) (find_names_utf8 env hs root ops (Or.inr hfind))
-        hfok hlen (by omega)
-      exact ⟨t, by
-        show encRoot env O (6 * (depthFields m + 1) + 9 + 1) root (.msg m) = .ok t
-        simp only [encRoot, hfind]; exact ht⟩
-  obtain ⟨t, ht⟩ := key
-  exact ⟨t.render, by simp [encodeBytes, ht]⟩
+    (hok : valOk c.env c.O (.object root) (.msg m) = true ∨ valOk c.env c.O (.oneof root) (.msg m) = true) :
+    ∃ bs, encodeBytes c.env c.O root (.msg m) = .ok bs := by
+  obtain ⟨bs, hbs, _⟩ := roundtrip_bytes c hs L root m hok
+  exact ⟨bs, hbs⟩
 
 end J5V.Codec
